@@ -93,12 +93,15 @@ def _owner_fn(bid):
     return bid
 
 
-def requirement(f, rq):
+def requirement(f, rq, entry=None):
     """machine-checked side condition of a reviewed entry -> (holds, text).  Kinds:
       ctor-only-in  {adt, variant?, fns}   values of the type (variant) are built in the listed functions only
       callers-only  {fn, callers}          every call of fn in the crate sits in one of the listed functions
       const-arg     {fn, arg}              every call of fn passes a constant as argument number arg (0-based)
       cmp-const     {fn, ops, const, min}  fn contains at least `min` comparisons of the given kinds with the constant
+      guarded-by    {ops, const | (len), min, fn?}  the entry's function has `min` comparisons with the constant / a len() that dominate a site of the
+                                           entry and send one outcome away from it (the guard the written reason quotes)
+      cmp-len       {fn, ops, min}         fn contains at least `min` comparisons of the given kinds in which one side is a len()
       variants-subset {producer, consumer, adt}  every variant the producer's match names has an arm in the consumer's match"""
     k = rq["kind"]
     if k == "ctor-only-in":
@@ -145,6 +148,67 @@ def requirement(f, rq):
         if n < rq["min"]:
             return False, "%s compares with %d by %s only %d time(s) (reviewed: %d)" % (rq["fn"], rq["const"], "/".join(rq["ops"]), n, rq["min"])
         return True, "%s has %d %s-comparisons with %d" % (rq["fn"], n, "/".join(rq["ops"]), rq["const"])
+    if k == "guarded-by":
+        # the local guard a reason quotes: a comparison (with the constant, or with a len()) that dominates a site of the entry and whose
+        # one outcome cannot reach it
+        from flow import Flow, last_seg
+        from cfg import CFG
+        from panics import sites_of
+        fn = rq.get("fn") or entry["fn"]
+        b = f.body(fn)
+        if b is None:
+            return False, "%s not found" % fn
+        want = entry["site"] if entry else None
+        sites = [x.bb for x in sites_of(b) if want is None or "%s:%s" % (x.kind, x.detail) == want]
+        if rq.get("site_fn"):
+            sb = f.body(rq["site_fn"])
+            sites = []          # the guard sits in another body (closure's parent): only its presence and its exit are checked
+        cfg = CFG(b)
+        fl = Flow(b)
+        n = 0
+        for i, bb in enumerate(b["blocks"]):
+            t = bb["term"]
+            if t["k"] != "switch":
+                continue
+            for st in bb["stmts"]:
+                if not (st[0] == "assign" and st[2][0] == "binop" and st[2][1] in rq["ops"] and F.op_local(t["discr"]) == st[1][0]):
+                    continue
+                if "const" in rq:
+                    hit = rq["const"] in (F.const_int(st[2][2]), F.const_int(st[2][3]))
+                else:
+                    cal = rq.get("call", "len")
+                    hit = any(F.op_local(o) is not None and any(a[0] == "call" and last_seg(a[1]) == cal for a in fl.origins(F.op_local(o))) for o in (st[2][2], st[2][3]))
+                if not hit:
+                    continue
+                succ = {a[1] for a in t["arms"]} | {t.get("otherwise")}
+                if sites:
+                    ok = any(cfg.dominates(i, sbb) and any(x is not None and x != sbb and sbb not in cfg.reachable_from(x, avoid={i}) for x in succ) for sbb in sites)
+                else:
+                    # one outcome leaves the function through an error return (no later block of the function's main line)
+                    ok = any(x is not None and len(cfg.reachable_from(x, avoid={i})) < len(cfg.reachable_from(y, avoid={i})) for x in succ for y in succ if x != y and y is not None)
+                if ok:
+                    n += 1
+        what = ("the constant %d" % rq["const"]) if "const" in rq else ("a length" if rq.get("call", "len") == "len" else "%s()" % rq["call"])
+        if n < rq["min"]:
+            return False, "%s has %d guarding %s-comparison(s) with %s in front of the site (reviewed: %d)" % (fn, n, "/".join(rq["ops"]), what, rq["min"])
+        return True, "%s: %d guarding %s-comparison(s) with %s" % (fn, n, "/".join(rq["ops"]), what)
+    if k == "cmp-len":
+        from flow import Flow, last_seg
+        b = f.body(rq["fn"])
+        if b is None:
+            return False, "%s not found" % rq["fn"]
+        fl = Flow(b)
+        n = 0
+        for i, j, st in F.stmts(b):
+            if st[0] == "assign" and st[2][0] == "binop" and st[2][1] in rq["ops"]:
+                for o in (st[2][2], st[2][3]):
+                    l = F.op_local(o)
+                    if l is not None and any(a[0] == "call" and last_seg(a[1]) == "len" for a in fl.origins(l)):
+                        n += 1
+                        break
+        if n < rq["min"]:
+            return False, "%s compares with a length by %s only %d time(s) (reviewed: %d)" % (rq["fn"], "/".join(rq["ops"]), n, rq["min"])
+        return True, "%s has %d %s-comparisons with a length" % (rq["fn"], n, "/".join(rq["ops"]))
     if k == "variants-subset":
         def arms_of(fn):
             b = f.body(fn)
@@ -208,12 +272,12 @@ def report_sites(ctx, run, rule, cats, prop, what):
         broken = []
         if e is not None:
             for rq in e.get("requires", []):
-                okq, whyq = requirement(run.f, rq)
+                okq, whyq = requirement(run.f, rq, e)
                 if not okq:
                     broken.append(whyq)
         if e is not None and len(ss) <= e["count"] and not broken:
             n_tab += len(ss)
-            ctx.ok(rule, key, "reviewed: " + e["reason"] + ("".join(" [checked: %s]" % requirement(run.f, rq)[1] for rq in e.get("requires", []))))
+            ctx.ok(rule, key, "reviewed: " + e["reason"] + ("".join(" [checked: %s]" % requirement(run.f, rq, e)[1] for rq in e.get("requires", []))))
             continue
         why = ss[0].reason
         extra = ""
